@@ -1,7 +1,12 @@
 """C18 — eccentricities: formula, bound, rotation / reflection / scaling / permutation, lattice variant.
 
-Tie C only (no translator): the generic model `Core/Ecc.lean` is run at Float (C libm) by the driver and
-compared with `EventCharacteristics(...).eccentricity(...)` of the tree under test on the same inputs.
+Tie T: `harness/translate/ecc.py` regenerates `Gen/Ecc.lean` (`Gen.Ecc.particles`, `Gen.Ecc.lattice`) from the
+current source of `eccentricity_from_particles` / `eccentricity_from_lattice` on every run; `Lemmas/EccGen.lean`
+proves the generated functions equal to the hand model for all inputs and `Props/C18/Gen.lean` restates the property
+theorems about them.
+Tie C: the generic model `Core/Ecc.lean` AND the generated functions (driver ops `gp`, `gl`) are run at Float
+(C libm) by the driver and compared with `EventCharacteristics(...).eccentricity(...)` of the tree under test on
+the same inputs.
 The oracle (`search`) checks the PROPERTY on the real code: an independent complex-arithmetic reference
 (no arctan2/cos/sin) and the metamorphic relations (rotate, reflect, scale, permute, lattice = nodes).
 
@@ -29,6 +34,20 @@ warnings.filterwarnings("ignore")
 WQS = ["energy", "number", "charge", "baryon", "strangeness"]
 WIDX = {"energy": 0, "charge": 1, "baryon": 2, "strangeness": 3}
 TOL = 1e-9
+
+
+# ------------------------------------------------------------------ translator (tie T)
+def translate(ctx):
+    from translate import ecc
+    src = common.read_src("EventCharacteristics.py")
+    text, regions = ecc.render(src)
+    common.write_if_changed(common.LEAN / "SparkxVerif/Gen/Ecc.lean", text)
+    golden = common.LEAN / "golden/Gen/Ecc.lean"
+    ctx.cov["gen_equals_golden"] = golden.exists() and golden.read_text() == text
+    ctx.cov["tie"] = ("T+C: eccentricity_from_particles / eccentricity_from_lattice re-translated from the source "
+                      "(Gen/Ecc.lean), proved equal to the hand model (Lemmas/EccGen.lean); model and generated "
+                      "functions both run against the real code")
+    return regions
 
 
 # ------------------------------------------------------------------ real code access
@@ -602,9 +621,13 @@ def correspond(ctx):
                 _, xs, ys, nz, g = content
                 lines.append(line_lattice(n, m, xs, ys, nz, g))
                 meta.append(("l", n, m, None, (None, [len(xs), len(ys), nz], g), (xs, ys, g), False, (real, where)))
-    outs = common.run_driver("C18", lines)
-    for (kind, n, m, wq, inp, seen, neutral, pre), out in zip(meta, outs):
+    # every case goes to the hand model (`p` / `l`) and to the functions generated from the source (`gp` / `gl`)
+    outs = common.run_driver("C18", lines + ["g" + l for l in lines])
+    gouts = outs[len(lines):]
+    nbroken = 0
+    for (kind, n, m, wq, inp, seen, neutral, pre), out, gout in zip(meta, outs, gouts):
         model = parse_model(out)
+        gen = parse_model(gout)
         if kind == "p":
             real = pre[0] if pre else real_particles(inp, n, m, wq)
             k = radial_power(max(n, 1), m if (m is None or m >= 1) else 1)
@@ -632,23 +655,31 @@ def correspond(ctx):
         allzero = all(w == 0.0 or (x == 0.0 and y == 0.0) for w, x, y in pts)  # every amplitude is exactly 0
         neutral = neutral or (allzero and not (kind == "p" and wq not in WQS))
         verdict = same(real, model, cond, exact_zero=neutral)
+        gverdict = same(real, gen, cond, exact_zero=neutral)
         if verdict == "ill":
             ctx.count("ill-conditioned (sum|a|/|sum a| > 1e6, outcome not compared)")
             continue
-        ctx.case(canon, nontriv, sample=sample if (nontriv and not pre) else None)
+        ctx.case(canon, nontriv, sample=dict(sample, generated=gout) if (nontriv and not pre) else None)
         ctx.count(tag + ("/exact-zero-norm" if neutral else ""))
+        ctx.count("generated-function-compared/" + ("lattice" if kind == "l" else "particles"))
         in_domain = n >= 1 and (m is None or m >= 1) and (kind == "l" or wq in WQS) and not neutral
-        if not verdict and not in_domain:
+        if not (verdict and gverdict) and not in_domain:
             # argument validation / the undefined quotient are not what the property talks about: report, do not gate
             ctx.count("outside-domain behaviour differs from the model (not gating)")
             ctx.notes.append(f"outside the property's domain (invalid n/m, unknown weight name or sum(w r^m) = 0): "
-                             f"code {real} vs model {model} for {sample['op']} n={n} m={m} wq={wq}")
+                             f"code {real} vs model {model} vs generated {gen} for {sample['op']} n={n} m={m} wq={wq}")
             continue
         if not verdict:
             ctx.brk("correspondence-broken",
                     f"{sample['op']} n={n} m={m} wq={wq}: code {real} vs model {model}", case=sample)
-            if sum(1 for b in ctx.broken if b["kind"] == "correspondence-broken") >= 5:
-                break
+            nbroken += 1
+        if not gverdict:
+            ctx.brk("correspondence-broken",
+                    f"{sample['op']} n={n} m={m} wq={wq}: code {real} vs functions generated from the source {gen}",
+                    case=dict(sample, generated=gout))
+            nbroken += 1
+        if nbroken >= 5:
+            break
 
 
 # ------------------------------------------------------------------ the property on the real code
